@@ -213,6 +213,9 @@ func TypeEq(a, b zed.Type) bool {
 		b, ok := b.(*zed.TypeError)
 		return ok && TypeEq(a.Type, b.Type)
 	default:
+		if _, named := b.(*zed.TypeNamed); named {
+			return false
+		}
 		return a.ID() == b.ID() && a.ID() < zed.IDTypeComplex
 	}
 }
